@@ -124,7 +124,8 @@ def snapshot(obj, t):
 
 def packer_snapshot(pk, t):
     d = vars(pk)
-    return (tuple(sorted((k, id(v) if not isinstance(v, (list, type(None), int)) else repr(
+    memo = tuple(sorted((k, tuple(sorted(repr(q) for q in v.keys()))) for k, v in d.items() if isinstance(v, dict)))     # content of dict-valued state (tensor memo)
+    return (memo, tuple(sorted((k, id(v) if not isinstance(v, (list, type(None), int)) else repr(
         [tuple(x) if isinstance(x, torch.Size) else (id(x) if isinstance(x, torch.Tensor) else x) for x in v]
         if isinstance(v, list) else v)) for k, v in d.items())), snapshot(pk._obj, t))
 
@@ -141,6 +142,7 @@ class Driver(object):
         self.orig_snap = snapshot(self.obj, tree)
         self.pk = Packer(self.obj)
         self.flat_shape = {}
+        self.results = []        # earlier rebuilt structures with their identity snapshots: later calls must leave them intact
 
     def listed_ids(self, lst):
         return [self.alias_of.get(id(x), 0) for x in lst]
@@ -218,6 +220,17 @@ class Driver(object):
     def _built(self, res, index_of):
         if res is self.pk._obj:
             return {"kind": "inner"}
+        out = self._built0(res, index_of)
+        if out.get("copied"):
+            mine = {c[0] for c in containers(res, self.tree, [])}
+            for old, snap in self.results:
+                if snapshot(old, self.tree) != snap or (mine & {c[0] for c in containers(old, self.tree, [])}):
+                    out["copied"] = False
+                    out["note"] = "an earlier rebuilt structure was overwritten by / shares containers with this one"
+        self.results.append((res, snapshot(res, self.tree)))
+        return out
+
+    def _built0(self, res, index_of):
         try:
             result = project(res, self.tree, lambda x: {"k": "T", "s": index_of(x)})
         except AssertionError as e:
